@@ -340,9 +340,11 @@ def decRDiff (f : Fmt) (V : Cdc ν) (D : Cdc δ) (bs : Bytes) : Option (RMap.Dif
     | some 1 => (decList (decRChange f V D) bs).map fun (es, r) => (.modify es, r)
     | _ => none
 
-/-! derived struct diffs: `Vec<__XDiff>` where the generated enum has ONE VARIANT PER UNSKIPPED FIELD, in declaration
+/-! derived struct diffs: `Vec<__XDiff>` where the generated enum has one variant per UNSKIPPED field, in declaration
 order, so the discriminant of the entry for field `j` is the RANK of `j` among the unskipped fields (the model's
-entries carry the field index itself). The codec derives write that discriminant as `u16` (nanoserde) / `u32`
+entries carry the field index itself). Exception, NOT modelled here: an `Option` + `recurse` field gets TWO variants
+(`f(Option<Vec<..>>)` and `f_full(T)`), which shifts the ranks of the fields after it; the wire model covers types
+without such fields. The codec derives write that discriminant as `u16` (nanoserde) / `u32`
 (bincode). Generic in the per-field payload codecs (those are produced by the codec derives for the field types). -/
 
 /-- number of unskipped fields before position `j` (`skips[i] = true` = field `i` is skipped) -/
@@ -378,6 +380,34 @@ def encEntries (f : Fmt) (skips : List Bool) (P : Nat → Cdc π) (es : List (Na
   encList (encEntry f skips P) es
 def decEntries (f : Fmt) (skips : List Bool) (P : Nat → Cdc π) (bs : Bytes) : Option (List (Nat × π) × Bytes) :=
   decList (decEntry f skips P) bs
+
+/-! the general form: field `i` contributes `ws[i]` variants (0 = skipped, 1 = ordinary, 2 = `Option` + `recurse`:
+`f(Option<Vec<..>>)` then `f_full(T)`); an entry addresses (field, alternative) -/
+
+def rankW : List Nat → Nat → Nat
+  | [], _ => 0
+  | _ :: _, 0 => 0
+  | w :: t, j + 1 => w + rankW t j
+
+def unrankW : List Nat → Nat → Option (Nat × Nat)
+  | [], _ => none
+  | w :: t, r => if r < w then some (0, r) else (unrankW t (r - w)).map fun (j, a) => (j + 1, a)
+
+def encEntryW (f : Fmt) (ws : List Nat) (P : Nat → Nat → Cdc π) (e : (Nat × Nat) × π) : Bytes :=
+  encDTag f (rankW ws e.1.1 + e.1.2) ++ (P e.1.1 e.1.2).enc e.2
+
+def decEntryW (f : Fmt) (ws : List Nat) (P : Nat → Nat → Cdc π) (bs : Bytes) : Option (((Nat × Nat) × π) × Bytes) :=
+  match decDTag f bs with
+  | none => none
+  | some (t, bs) =>
+    match unrankW ws t with
+    | none => none
+    | some (j, a) => ((P j a).dec bs).map fun (p, r) => (((j, a), p), r)
+
+def encEntriesW (f : Fmt) (ws : List Nat) (P : Nat → Nat → Cdc π) (es : List ((Nat × Nat) × π)) : Bytes :=
+  encList (encEntryW f ws P) es
+def decEntriesW (f : Fmt) (ws : List Nat) (P : Nat → Nat → Cdc π) (bs : Bytes) : Option (List ((Nat × Nat) × π) × Bytes) :=
+  decList (decEntryW f ws P) bs
 
 /-- payloads of plain fields of the two value types the flat shapes use: `u32` and `Option<u32>` -/
 inductive PV
@@ -428,29 +458,83 @@ def leafEntriesCdc (f : Fmt) (L : LeafTy) : Cdc (List (Nat × PV)) where
 
 abbrev LeafDiff := RMap.Diff Nat (List PV) (List (Nat × PV))
 
-/-- payload of a field of a struct whose fields are flat or recursive maps of flat values -/
+/-- payload of a field, by strategy: plain flat value; nested entry list (`recurse` into a flat struct); ordered script;
+unordered array-like diff; flat map-like diff; recursive map-like diff with flat values (elements, keys and flat map
+values are `u32`) -/
 inductive PL
   | pv (p : PV)
+  | ne (es : List (Nat × PV))
+  | on (o : Option (List (Nat × PV)))
+  | full (vs : List PV)
+  | sc (s : List (Script.Change Nat))
+  | ua (d : UArr.Diff Nat)
+  | um (d : UMap.Diff Nat Nat)
   | rm (d : LeafDiff)
 
 inductive FKind
   | flat (isOpt : Bool)
+  | nested (L : LeafTy)
+  | optNested (L : LeafTy)
+  | ord
+  | uarr
+  | umap
   | rmap (L : LeafTy)
 deriving DecidableEq, Repr
 
-def plCdc (f : Fmt) : FKind → Cdc PL
-  | .flat o =>
-    { enc := fun p => match p with | .pv p => (pvCdc o).enc p | .rm _ => []
+/-- `Option<T>` of a payload: one byte 0 / 1, then the payload (both formats) -/
+def optCdc {β : Type} (c : Cdc β) : Cdc (Option β) where
+  enc
+    | none => [0]
+    | some x => 1 :: c.enc x
+  dec
+    | 0 :: r => some (none, r)
+    | 1 :: r => (c.dec r).map fun (x, r) => (some x, r)
+    | _ => none
+
+/-- number of enum variants a field of this kind contributes -/
+def FKind.width : FKind → Nat
+  | .optNested _ => 2
+  | _ => 1
+
+/-- the payload codec of alternative `alt` of a field of the given kind (alternative 1 exists only for `Option` +
+`recurse`: the whole new value) -/
+def plCdc (f : Fmt) : FKind → Nat → Cdc PL
+  | .flat o, _ =>
+    { enc := fun p => match p with | .pv p => (pvCdc o).enc p | _ => []
       dec := fun bs => ((pvCdc o).dec bs).map fun (p, r) => (.pv p, r) }
-  | .rmap L =>
-    { enc := fun p => match p with | .rm d => encRDiff f (valsCdc L.opts) (leafEntriesCdc f L) d | .pv _ => []
+  | .nested L, _ =>
+    { enc := fun p => match p with | .ne es => (leafEntriesCdc f L).enc es | _ => []
+      dec := fun bs => ((leafEntriesCdc f L).dec bs).map fun (es, r) => (.ne es, r) }
+  | .optNested L, 0 =>
+    { enc := fun p => match p with | .on o => (optCdc (leafEntriesCdc f L)).enc o | _ => []
+      dec := fun bs => ((optCdc (leafEntriesCdc f L)).dec bs).map fun (o, r) => (.on o, r) }
+  | .optNested L, _ =>
+    { enc := fun p => match p with | .full vs => (valsCdc L.opts).enc vs | _ => []
+      dec := fun bs => ((valsCdc L.opts).dec bs).map fun (vs, r) => (.full vs, r) }
+  | .ord, _ =>
+    { enc := fun p => match p with | .sc s => encScript f s | _ => []
+      dec := fun bs => (decScript f bs).map fun (s, r) => (.sc s, r) }
+  | .uarr, _ =>
+    { enc := fun p => match p with | .ua d => encUDiff f d | _ => []
+      dec := fun bs => (decUDiff f bs).map fun (d, r) => (.ua d, r) }
+  | .umap, _ =>
+    { enc := fun p => match p with | .um d => encMDiff f d | _ => []
+      dec := fun bs => (decMDiff f bs).map fun (d, r) => (.um d, r) }
+  | .rmap L, _ =>
+    { enc := fun p => match p with | .rm d => encRDiff f (valsCdc L.opts) (leafEntriesCdc f L) d | _ => []
       dec := fun bs => (decRDiff f (valsCdc L.opts) (leafEntriesCdc f L) bs).map fun (d, r) => (.rm d, r) }
 
-/-- the borrowed form (`DiffRef`): flat payloads are written identically, the recursive-map payload through the
-borrowed tables -/
-def plEncRef (f : Fmt) : FKind → PL → Bytes
-  | .flat o, .pv p => (pvCdc o).enc p
-  | .rmap L, .rm d => encRDiffRef f (valsCdc L.opts) (leafEntriesCdc f L) d
-  | _, _ => []
+/-- the borrowed form (`DiffRef`): flat payloads and nested entry lists are written identically, the collection diffs
+through the borrowed encoders / tables -/
+def plEncRef (f : Fmt) : FKind → Nat → PL → Bytes
+  | .flat o, _, .pv p => (pvCdc o).enc p
+  | .nested L, _, .ne es => (leafEntriesCdc f L).enc es
+  | .optNested L, 0, .on o => (optCdc (leafEntriesCdc f L)).enc o
+  | .optNested L, _ + 1, .full vs => (valsCdc L.opts).enc vs
+  | .ord, _, .sc s => encScriptRef f s
+  | .uarr, _, .ua d => encUDiffRef f d
+  | .umap, _, .um d => encMDiffRef f d
+  | .rmap L, _, .rm d => encRDiffRef f (valsCdc L.opts) (leafEntriesCdc f L) d
+  | _, _, _ => []
 
 end Codec
